@@ -19,6 +19,7 @@ META = {
         "isolation, checked on object identity of self and machine in every callback). "
         ""
         "value-object listeners (equal or unhashable), the add_observer alias, per-instance hooks, the second instance checked on its own log, repeated evaluation of token-carrying guards judged, plus a probe with callback names that are events on one provider (own event / another machine as listener). "
+        "Falsy listeners, several objects (attached and new) in one add_listener call, names the machine reserves used on model/listeners. "
         "distinct_nontrivial = distinct (provider distribution pattern of names with >=2 providers, "
         "attachment multiplicities, late-listener positions, engine) observed."
     ),
